@@ -7,7 +7,8 @@
 //     entry   : xmlbuf | xmlfile | xta | prop | part (in the builder context the XML reader sets up) | partraw (fresh builder)
 //     builder : doc | tiga | pretty
 //     part    : name of an xta_part_t value (only read when entry == part), else "-"
-//     ctx     : doc/pretty + part: global declarations parsed first (the XML reader would have parsed the enclosing
+//     ctx     : doc + xta: a text parsed by an EARLIER parse_XTA call of the same process (own Document)
+//               doc/pretty + part: global declarations parsed first (the XML reader would have parsed the enclosing
 //               <declaration>); tiga: the model (XML if it starts with '<', else XTA) the queries are parsed against
 // Every input runs in a forked child (a crash identifies its input) under a CPU-time budget
 // (cpu_base_ms + cpu_us_per_byte*len)*mult [ITIMER_PROF; robust on a loaded machine] and a wall-clock back stop
@@ -328,6 +329,15 @@ static void runJob(const Job& j, Detail& d)
             sink += touchDiags(doc, d);
             if (d.rc == 0) sink += runQueries(doc, d);
         } else if (j.entry == "xta") {
+            if (!j.ctx.empty()) {
+                // an EARLIER call of the same process, on a Document of its own (whatever it leaves behind in the parser's and the
+                // lexer's file-scope state is what the call under test starts from)
+                Document earlier;
+                try {
+                    parse_XTA(j.ctx.c_str(), &earlier, nx);
+                } catch (const std::exception&) {
+                }
+            }
             d.rc = parse_XTA(buf, &doc, nx) ? 0 : 1;
             sink += touchDiags(doc, d);
             sink += runQueries(doc, d);
